@@ -1,6 +1,9 @@
 package badger
 
 import (
+	"bytes"
+
+	"github.com/dgraph-io/badger/v4/skl"
 	"os"
 	"time"
 
@@ -247,12 +250,28 @@ func VpHInMemoryNoFiles() {
 	db.threshold = &vlogThreshold{}
 	db.threshold.valueThreshold.Store(db.opt.ValueThreshold)
 	vpStub("(*badger.vlogThreshold).update", func(v *vlogThreshold, sizes []int64) {})
-	req := &request{Entries: []*Entry{{Key: y.KeyWithTs([]byte("k1"), 7), Value: []byte("BIGVALUE-BIGVALUE")}}}
+	// the entry carries arbitrary meta bits (delete, discard-earlier-versions, merge entry, txn),
+	// user meta and expiry: what reaches the memtable must be what an on-disk database would store
+	// for an inline value (the same meta apart from the value-pointer bit, same value, user meta,
+	// expiry) - the memtable content is all an in-memory database has
+	var putVs []y.ValueStruct
+	vpStub("(*badger/skl.Skiplist).Put", func(s *skl.Skiplist, key []byte, v y.ValueStruct) {
+		e.puts = append(e.puts, string(key))
+		putVs = append(putVs, v)
+	})
+	ent := &Entry{Key: y.KeyWithTs([]byte("k1"), 7), Value: []byte("BIGVALUE-BIGVALUE"), meta: vpU8("meta"), UserMeta: vpU8("usermeta"), ExpiresAt: vpU64("expires")}
+	vpAssume(ent.meta&(bitFinTxn|bitValuePointer) == 0)
+	req := &request{Entries: []*Entry{ent}}
 	req.Wg.Add(1)
 	req.IncrRef()
 	werr := db.writeRequests([]*request{req})
 	vpAssert(werr == nil && req.Err == nil, "C37:inmem.write-succeeds")
 	vpAssert(len(e.puts) == 1, "C37:inmem.value-stays-in-lsm")
+	if len(putVs) == 1 {
+		v := putVs[0]
+		vpAssert(vpAnd(vpAnd(v.Meta == ent.meta, v.UserMeta == ent.UserMeta), vpAnd(v.ExpiresAt == ent.ExpiresAt, bytes.Equal(v.Value, ent.Value))),
+			"C37,C06:inmem.memtable-gets-the-entry-unchanged")
+	}
 	vpAssert(len(fs.touched) == 0, "C37:inmem.write-touches-no-file")
 
 	vpStub("badger/table.OpenInMemoryTable", func(data []byte, id uint64, opt *table.Options) (*table.Table, error) {
